@@ -57,19 +57,22 @@ type Instance struct {
 	OpaquePool          map[string]string
 	FormPool            map[string]int
 
+	deadline       time.Time
+	solverTimeouts int
 	SeenInputs     map[string]string
+	BulkWitnesses  int
 	MaxWallS       float64
 	firstFindingAt int
 	StoppedEarly   bool
 
-	in        *Interner
-	feasCache map[string]string
-	CacheHits int
-	snap      *heapSnap
+	in          *Interner
+	feasCache   map[string]string
+	CacheHits   int
+	snap        *heapSnap
 	initPerPath bool
-	goldenIDs map[int][]int
-	oblLabels map[string]int
-	reached   map[string]int
+	goldenIDs   map[int][]int
+	oblLabels   map[string]int
+	reached     map[string]int
 
 	Paths       int
 	Steps       int
@@ -142,10 +145,12 @@ func (inst *Instance) Run(P *Program, solverName string, timeoutMs int, seed int
 	t0 := time.Now()
 	solver := NewSolver(solverName, timeoutMs, seed, stats)
 	defer solver.Close()
+	inst.deadline = time.Time{}
 	if !inst.prepare(P, solver) {
 		inst.WallS = time.Since(t0).Seconds()
 		return
 	}
+	inst.deadline = t0.Add(time.Duration((inst.MaxWallS + 30) * float64(time.Second)))
 	work := [][]Decision{nil}
 	for len(work) > 0 {
 		prefix := work[len(work)-1]
@@ -228,7 +233,6 @@ func (inst *Instance) Run(P *Program, solverName string, timeoutMs int, seed int
 	}
 	inst.WallS = time.Since(t0).Seconds()
 }
-
 
 // prepare interns the golden list and executes package initialisation once (heap snapshot).
 func (inst *Instance) prepare(P *Program, solver *Solver) bool {
